@@ -10,8 +10,8 @@
    type) and set_data/get_data (generic board), the writable DIO bits of the Dewar board.
    Not theorems (the code violates them; witnesses below, known findings of class receiver_...): Dewar/Switch
    set_data acknowledges and ignores writes to keys that are not writable DIO bits; DIO ports 11 and 12
-   alias one register; the amplifier writes are write-only.  The Switch board's DIO bits have the
-   write/other-bit lemmas (the C05_receiver_switch_ theorems) but no history theorem. *)
+   alias one register; the amplifier writes are write-only.  (The Switch board's DIO bits also have the
+   write/other-bit lemmas below, next to their history theorem C05_receiver_switch_bit_readback.) *)
 From DS Require Import Base.Prelude Gen.RcvTables Model.RcvModel Proofs.RcvAssoc Proofs.RcvProofs Proofs.RcvBoards Proofs.RcvFraming Proofs.RcvRegisters.
 
 (* refused write (any board, any write command, any parameters): nothing but the inquiry record changes *)
@@ -105,6 +105,18 @@ Theorem C05_receiver_switch_bit_other : forall d w pn pn' x d' w', In pn SWITCH_
   pn' <> pn -> ~ alias pn pn' -> switch_set d w pn' x = (d', w') -> switch_get d' w' pn = switch_get d w pn.
 Proof. exact switch_set_get_other. Qed.
 Print Assumptions C05_receiver_switch_bit_other.
+
+(* writable DIO bits of the Switch board (ports 0,1,2,4,5,7,8,11,12,13,14) *)
+Theorem C05_receiver_switch_bit_readback : forall clk mkdate render keys c d w t ext cid pn x ex h keys' ext' cid',
+  In pn SWITCH_set_data_ports ->
+  e_ans (exec clk mkdate render keys (mkBoard c (KSwitch d w)) t KSetData ext cid (dio_params pn x)) = Some (CMD_ACK, ex) ->
+  let r := exec clk mkdate render keys (mkBoard c (KSwitch d w)) t KSetData ext cid (dio_params pn x) in
+  quiet clk mkdate render (writes_bit pn) (e_board r, e_tick r) h ->
+  e_ans (bexec clk mkdate render (bsteps clk mkdate render (e_board r, e_tick r) h)
+               (BC keys' KGetData ext' cid' [DATA_TYPE_B01; PORT_TYPE_DIO; pn])) =
+  Some (CMD_ACK, with_data [DATA_TYPE_B01; PORT_TYPE_DIO; pn; x]).
+Proof. exact switch_bit_readback. Qed.
+Print Assumptions C05_receiver_switch_bit_readback.
 
 (* witnesses of what the code violates (known findings) *)
 Theorem C05_receiver_dewar_data_ack_ignored_refuted :
